@@ -38,13 +38,13 @@ theorem hbi_at (b : Blk) (p q : Nat) (h : AtBlk inp p b q) :
   cases b with
   | line l =>
     obtain ⟨t, ht, hts⟩ := hier_block_element_at (.line l) p q h
-    obtain ⟨⟨c, r, rfl, hs⟩, hp, _⟩ := h
-    have h14 := (plainStart_parts hs).2.2.1
+    obtain ⟨c, hc0, hs, _⟩ := h
+    have h14 := (starterOK_parts hs).2.1
     have hind : Lim aknExec inp (.seq (.cons ["indent"] (.ref "indent")
         (.cons ["content"] (.plus (.ref "hier_block_element")) (.cons ["dedent"] (.ref "dedent") .nil)))) p .fail := by
       refine lim_seq (limS_cons_fail (lim_ref lk_indent (lim_seq (limS_cons_fail (lim_lit_fail ?_)))))
       have : (some c == some (Char.ofNat 14)) = false := by simpa using h14
-      simp [litMatch, hp.1, this]
+      simp [litMatch, hc0, this]
     exact ⟨t, lim_ref lk_hbi (lim_choice (limC_cons_fail hind (limC_cons_ok ht))), hts⟩
   | nest bs =>
     obtain ⟨h0, h1, h2, hne, m, hbs, hm0, k, hrun, hq⟩ := h
@@ -95,11 +95,11 @@ theorem j_rule_fails (r : String) (hr : r ∈ jRules) (bs : List Blk) (p : Nat) 
     obtain ⟨mid, hb, _⟩ := h
     cases b with
     | line l =>
-      obtain ⟨⟨c, r', rfl, hs⟩, hp, _⟩ := hb
-      have := (plainStart_parts hs).2.2.2.2 r (by
+      obtain ⟨c, hc0, hs, _⟩ := hb
+      have := (starterOK_parts hs).2.2.2 r (by
         simp only [jRules, List.mem_cons, List.mem_nil_iff, or_false] at hr ⊢
         rcases hr with rfl | rfl | rfl | rfl | rfl | rfl | rfl | rfl | rfl | rfl | rfl | rfl | rfl <;> simp)
-      exact rule_fails_at r p c hp.1 this.1 this.2
+      exact rule_fails_at r p c hc0 this.1 this.2
     | nest bs' =>
       have := j_marker_facts.1
       simp only [List.all_eq_true, Bool.and_eq_true, Bool.not_eq_true'] at this
